@@ -12,7 +12,8 @@ echo "--- existing suite with the change:"
 cargo test --workspace --no-fail-fast --offline 2>&1 | grep -E "^test result|FAILED|failed" | sort | uniq -c
 cp $S/demo.rs tests/zz_demo.rs
 echo "--- demo with the change (must fail):"
-RUST_BACKTRACE=0 cargo test --offline --test zz_demo 2>&1 | grep -E "^test result|panicked|FAILED" | head -6
+RUST_BACKTRACE=0 cargo test --offline --test zz_demo > zz_demo.log 2>&1; echo "cargo test exit status: $?"
+grep -E "^test result|panicked|FAILED|overflowed|SIGABRT|signal" zz_demo.log | head -6; rm -f zz_demo.log
 git checkout -- src
 echo "--- demo without the change (must pass):"
 RUST_BACKTRACE=0 cargo test --offline --test zz_demo 2>&1 | grep -E "^test result|panicked|FAILED" | head -6
